@@ -239,7 +239,7 @@ def props_of(conj, sig, group):
     kind = sig.get('kind', '-')
     op = sig.get('op', '-')
     ps = set()
-    if kind == 'hostiledir':
+    if kind in ('hostiledir', 'rootops'):
         ps.add('C13')
         return ps
     if kind == 'confine':
